@@ -94,7 +94,26 @@ def zonogon2(draw, n):
 
 
 @st.composite
+def flat_vertex2(draw):
+    """convex pentagon / hexagon with one or two vertices at which two long edges meet at a shallow turn of 2-4
+    degrees (far outside the tolerance band, close to a straight angle): (0,0) (a,0) (a+b,h) ... with h = 1/4 or 1/2"""
+    a, b = draw(st.sampled_from((3, 4, 5))), draw(st.sampled_from((3, 4)))
+    h = draw(st.sampled_from((F(1, 4), F(1, 2))))
+    top = draw(st.sampled_from((2, 3)))
+    pts = [(F(0), F(0)), (F(a), F(0)), (F(a + b), h), (F(a + b), F(top)), (F(0), F(top))]
+    if draw(st.booleans()):
+        pts = pts[:4] + [(F(a), F(top) + h)] + pts[4:]  # a second shallow vertex on the top side
+    if draw(st.booleans()):
+        pts = [(-x, y) for x, y in reversed(pts)]
+    cx = (min(x for x, _y in pts) + max(x for x, _y in pts)) / 2
+    cx = F(cx.__floor__())
+    return [(x - cx, y - 1) for x, y in pts]
+
+
+@st.composite
 def shape2(draw, nmin=3, nmax=8):
+    if nmin <= 5 and nmax >= 6 and draw(st.integers(0, 11)) == 0:
+        return draw(flat_vertex2())
     if nmax >= 6 and draw(st.integers(0, 5)) == 0:
         return draw(zonogon2(draw(st.integers(max(6, nmin), nmax))))
     mode = draw(st.integers(0, 2))
